@@ -30,16 +30,21 @@ def main(argv=None):
     un = [SR.random_super_input(rng, rng.randint(2, 4), rng.randint(1, 3), rng.randint(1, 3), False) for _ in range(60 if q else 500)]
     od = [SR.random_super_input(rng, rng.randint(2, 3), rng.randint(1, 3), rng.randint(1, 3), True, rootsyn_p=0.2, consistent_p=0.7)
           for _ in range(50 if q else 500)]
+    od4 = [SR.random_super_input(rng, 4, rng.randint(2, 3), rng.randint(2, 3), True, rootsyn_p=0.1, consistent_p=0.9) for _ in range(70 if q else 500)]
+    un5 = [SR.random_super_input(rng, 5, rng.randint(2, 4), rng.randint(2, 4), False) for _ in range(40 if q else 300)]
     pol = ["any", "all"]
     sections = [
         ("plain: thl, exh", [(d, SR.runs_for(["thl", "exh"], pol, FLAGS, "full")) for d in plain], False),
         ("unordered: base_uspfs, superdtl", [(d, SR.runs_for(["base_uspfs", "superdtl"], pol, FLAGS, "full")) for d in un], False),
         ("ordered: base_spfs, ext_spfs (<= 3 leaves x <= 3 families)", [(d, SR.runs_for(["base_spfs", "ext_spfs"], pol, FLAGS, "full")) for d in od], False),
+        ("ordered, 4 leaves x 2-3 families: dup/hgt/sloss symbolic (spe=0, floss=1)", [(d, SR.runs_for(["base_spfs", "ext_spfs"], pol, FLAGS, "dhs")) for d in od4], False),
+        ("unordered, 5 leaves x 2-4 families: dup/hgt/sloss symbolic (spe=0, floss=1)", [(d, SR.runs_for(["base_uspfs", "superdtl"], pol, FLAGS, "dhs")) for d in un5], False),
     ]
     return sr_main.run(
         PROP, tier, seed, sections, ["plain", "unordered", "ordered", "dp"],
         bounds={"inputs": "plain: every input with 1-3 object x 1-3 species leaves + seeded 4-leaf (thorough: also 5-leaf) inputs; unordered: seeded 2-4 "
-                          "leaves, 1-3 families; ordered: seeded 2-3 leaves, 1-3 families (with sloss = 0 every labelling ties, so the bound is small)",
+                          "leaves, 1-3 families; ordered: seeded 2-3 leaves, 1-3 families (with sloss = 0 every labelling ties, so the bound is small); seeded ordered 4-leaf x 2-3-family and "
+                          "unordered 5-leaf x 2-4-family inputs with dup, hgt, sloss symbolic and spe = 0, floss = 1 (decoders pairing the decodings of deep children)",
                 "costs": "five (plain: four) symbolic non-negative integer costs in the coherent region; second run hgt = infinity.inf",
                 "oracle set": "every valid mapping x every labelling (unordered: canonical labellings only), each with its count vector"},
         explanation="Bounded symbolic verification of the retention policies end to end: on every feasible cost ordering of each algorithm z3 proves that every "
@@ -48,7 +53,7 @@ def main(argv=None):
         rule="one evaluation = one structural input explored for the listed algorithms, any + all, finite symbolic and infinite transfer cost; "
              "non-trivial = exploration forked on a cost comparison",
         outside=["cost vectors outside the coherent region", "inputs beyond the stated sizes", "non-canonical unordered labellings (excluded by the property)"],
-        budget=120 if q else 2400, max_paths=6000 if q else 30000, budget_s=200.0 if q else 900.0)
+        budget=150 if q else 3000, max_paths=6000 if q else 30000, budget_s=200.0 if q else 900.0)
 
 
 if __name__ == "__main__":
